@@ -18,6 +18,6 @@ if [ -f "$CH/demo_test.go" ]; then
   rm -f "$D/src/zz_seeded_demo_test.go"
 fi
 for p in "$@"; do
-  /verif/bin/vcgen -repo "$D/src" -out "$D/out" check "$p" quick 2>&1 | grep -E "VIOLATION|KNOWN|^property " | cut -c1-600 | head -6
+  /verif/bin/vcgen -repo "$D/src" -out "$D/out" check "$p" quick 2>&1 | grep -E "VIOLATION|KNOWN|^property " | cut -c1-600 | head -40
 done
 rm -rf "$D"
